@@ -57,6 +57,9 @@ def check(ctx, F):
     check_walk(ctx, F)
     check_never_none(ctx, F)
     C01.check_defaults(ctx, F, "C12.defaults", ("wrapRank", "wrapUtility", "deepReportChange", "deepReportUtilize", "deepReportRank", "deepReportRandomize"))
+    # reset() resolves utilitarian / random regions as the first activation does: through deepRequestChange (the declared strategy), not deepRequest
+    from . import C03
+    C02.check_reset(C03._Alias(ctx, {"C02.reset": "C12.delegate"}), F)
 
 
 def local_calls(F, b):
